@@ -155,7 +155,7 @@ theorem collectArgs_select (T : PTables) (mac : MacroDef) (lb rb : Tok) (body : 
     (hb : ∀ t ∈ body, PlainTok t) (hne : body ≠ []) :
     collectArgs T mac ['A'] 0 (lb :: (body ++ rb :: rest)) start {} st
       = .ok (({ args := [body], extr := [body], langs := [] }, rest), st) := by
-  have h2 : txtIs lb "}" = false := by simp [txtIs, hlb.txt]
+  have h2 : txtIsNV lb "}" = false := by simp [txtIsNV, hlb.txt]
   simp only [collectArgs, skipSpace_brace lb _ hlb, skippedLangs_brace lb _ hlb, List.head?_cons,
     h2, show ('A' == '*') = false by decide, show ('A' == 'O') = false by decide,
     show ('A' == 'A') = true by decide, Bool.false_eq_true, if_false, if_true, List.append_nil,
@@ -195,8 +195,8 @@ theorem expandMacro_select (T : PTables) (fuel : Nat) (mac : MacroDef) (hd lb rb
     expandMacro T fuel (lb :: (body ++ rb :: rest)) hd false st
       = .ok (([mkAction hd.pos, selTok T hd.pos code], rest), st) := by
   obtain ⟨f, rfl⟩ : ∃ f, fuel = f + 1 := ⟨fuel - 1, by omega⟩
-  have hsk : skipSpaceStopLang (lb :: (body ++ rb :: rest)) = lb :: (body ++ rb :: rest) := by
-    simp [skipSpaceStopLang, hlb.notSpace]
+  have hsk : skipSpaceStopLangAct (lb :: (body ++ rb :: rest)) = lb :: (body ++ rb :: rest) := by
+    simp [skipSpaceStopLangAct, hlb.notSpace]
   rw [expandMacro.eq_2]
   show M.bind' M.get _ st = _
   simp only [M.bind', M.get, hmac, hsk]
